@@ -31,6 +31,7 @@ class D:
         self.name, self.depth = name, depth
         self.has_index, self.index_title = True, None
         self.pages = []  # (filename, title or None)
+        self.page_copy_up = {}  # page file -> (name, files) of a plain directory of the PARENT directory, named `../name` in the page's copy_subdir
         self.files = []  # non-markdown files
         self.hidden = []
         self.dirs = []
@@ -99,6 +100,12 @@ def gen_dir(rng, name, depth, counter, maxdepth):
             d.both = rng.choice(withidx)
             d.copy_subdir = list(d.copy_subdir) + [d.both]
             d.copy_off = False
+    # a page one level down names a directory of this one as `../name`: still inside the page tree, copied next to this directory's pages
+    for sd in d.dirs:
+        mine = [p for p in d.plain_dirs if p[0] != "shared_assets"]
+        titled = [p[0] for p in sd.pages if p[1] and p[0] not in sd.page_copy]
+        if mine and titled and sd.has_index and sd.index_title and rng.random() < 0.35:
+            sd.page_copy_up[rng.choice(titled)] = mine[0]
     # ordering
     cands = [p[0] for p in d.pages if p[1]] + [x.name for x in d.dirs if x.has_index and x.index_title]
     if cands and rng.random() < 0.5:
@@ -123,10 +130,11 @@ def write_dir(d: D, path, rng, entity_links):
     if d.has_index:
         meta = []
         if d.index_title:
-            meta.append(f"title: {d.index_title}")
+            # (white space after the colon of a metadata key is optional)
+            meta.append(f"title:{d.index_title}" if int(core.h([d.name, "t"])[:2], 16) % 5 == 0 else f"title: {d.index_title}")
         if d.ordered:
             if d.ordered_style == "repeat":
-                meta += [f"ordered_subpage: {n}" for n in d.ordered]
+                meta += [f"ordered_subpage:{n}" if k_ % 3 == 2 else f"ordered_subpage: {n}" for k_, n in enumerate(d.ordered)]
             else:
                 meta += [f"ordered_subpage: {d.ordered[0]}"] + [f"    {n}" for n in d.ordered[1:]]
         for c in d.copy_subdir:
@@ -135,7 +143,7 @@ def write_dir(d: D, path, rng, entity_links):
             meta.append("copy_subdir:")
         if not meta:
             meta = ["author: nobody"]
-        body = [f"Index of {d.name}.", ""]
+        body = [f"Index of {d.name}.", ""] + (['<span id="zfragtop"></span>anchored text'] if d.depth == 0 else [])
         for fn, title in d.pages:
             if title:
                 body.append(f"[{title}]({fn[:-3]}.html)")
@@ -152,11 +160,13 @@ def write_dir(d: D, path, rng, entity_links):
         body.append(entity_links)
         open(os.path.join(path, "index.md"), "w", encoding=ENC["name"]).write("\n".join(meta) + "\n\n" + "\n\n".join(body) + "\n")
     for fn, title in d.pages:
-        meta = [f"title: {title}"] if title else ["author: someone"]
+        meta = [f"title:{title}" if int(core.h([fn, "t"])[:2], 16) % 4 == 0 else f"title: {title}"] if title else ["author: someone"]
         if fn in d.page_copy:
             meta.append(f"copy_subdir: {d.page_copy[fn]}")
-        body = [f"Page {fn} in {d.name}.", f"[index](index.html) [top]({up}index.html) [alias](|page|/index.html) [media](|media|/logo.png)", entity_links]
-        if not title and fn not in d.page_copy:
+        if fn in d.page_copy_up:
+            meta.append(f"copy_subdir: ../{d.page_copy_up[fn][0]}")
+        body = [f"Page {fn} in {d.name}.", f"[index](index.html) [top]({up}index.html) [alias](|page|/index.html) [media](|media|/logo.png) [alias with fragment](|page|/index.html#zfragtop)", entity_links]
+        if not title and fn not in d.page_copy and fn not in d.page_copy_up:
             # other ways of having no title: an empty file (a placeholder), blanks only, text without any metadata
             variant = int(core.h([fn, d.name])[:4], 16) % 4
             if variant in (1, 2, 3):
@@ -200,6 +210,11 @@ def expected(d: D, rel, proj_copy):
                 cdirs.add(os.path.join(rel, name))
                 for f in fl:
                     files.add(os.path.join(rel, name, f))
+    for fn, (dn, fl) in d.page_copy_up.items():
+        up = os.path.dirname(rel)
+        cdirs.add(os.path.join(up, dn))
+        for f in fl:
+            files.add(os.path.join(up, dn, f))
     for f in d.files:
         files.add(os.path.join(rel, f))
     # what the index page asks for, plus the project-level entries wherever a page of this directory has no copy_subdir of its own
@@ -207,7 +222,7 @@ def expected(d: D, rel, proj_copy):
     if getattr(d, "both", None):
         cdirs.add(os.path.join(rel, d.both))  # (its raw files are there as well)
     copy = list(d.copy_subdir)
-    if (not d.copy_subdir and not getattr(d, "copy_off", False)) or any(title and fn not in d.page_copy for fn, title in d.pages):
+    if (not d.copy_subdir and not getattr(d, "copy_off", False)) or any(title and fn not in d.page_copy and fn not in d.page_copy_up for fn, title in d.pages):
         copy += [c for c in proj_copy if c not in copy]
     for c in copy:
         for name, fl in d.plain_dirs:
@@ -340,6 +355,19 @@ def case(seed):
                 continue
             seen.add(k)
             viol.append({"kf": kf, "w": {"seed": seed, "problem": pr}})
+        # a link written through an alias keeps its #fragment (every non-index page carries one to an anchor of the top page)
+        nfrag = 0
+        for rel, title in pages.items():
+            if os.path.basename(rel) == "index.html":
+                continue
+            info = s["pages"].get("page/" + rel)
+            if info is None:
+                continue
+            nfrag += 1
+            if not any(u.endswith("#zfragtop") for _, _, u in info["links"]):
+                kf = {"kind": "static_page_link_broken", "why": "fragment_of_alias_link_dropped", "depth": rel.count("/")}
+                if not any(v["kf"] == kf for v in viol):
+                    viol.append({"kf": kf, "w": {"seed": seed, "page": rel, "links": [u for _, _, u in info["links"] if "index.html" in u][:6]}})
         if any_ordered(top):
             feats.add("ordered_subpage")
         if reports:
